@@ -13,14 +13,12 @@ import Proofs.TreeExact
   Errorf and data-dependent loops, on the buffer `input`, with Force / FillGaps / Options.Range as in `cfg`;
   failing programs keep their partial tree.  `WF` is the statement of the property.
 
-  `run_wf` is the full obligation for every program — failing or not — that does not call RangeFn with a
-  NEGATIVE length (`noNegRangeL`, a syntactic condition on the program; FramedFn/LimitedFn reject a negative
-  nBits with Fatalf, RangeFn does not, and then starts `fn` with the cursor beyond its section:
-  `run_wf_negrange_witness`, known finding `rangefn-negative-length`).
+  `run_wf` is the full, unconditional obligation: every program, failing or not.
 
-  History: two defects that made the statement false for failing / over-seeking programs (known findings
-  `seek-past-end`, `rootfn-partial`) were repaired in /repo (b19305f5, 227ce6eb); the model follows the repaired
-  code, their witnesses are now regression tests (`seek_past_end_fixed`, `rootfn_partial_fixed`, corpus/C03).
+  History: three defects that made the statement false (known findings `seek-past-end`, `rootfn-partial`,
+  `rangefn-negative-length`) were found by this check and repaired in /repo (b19305f5, 227ce6eb, 2947129a); the
+  model follows the repaired code, the former witnesses are regression theorems (`seek_past_end_fixed`,
+  `rootfn_partial_fixed`, `rangefn_negative_fixed`, `rangefn_negative_old_rule_witness`) and corpus lines.
 -/
 namespace Props.C03
 open FqModel FqModel.Tree
@@ -28,19 +26,19 @@ open FqModel FqModel.Tree
 /-- WF of the tree a run returns (vacuous when `decode.Decode` returns no value or panics) -/
 def outWF (r : RunRes) : Bool := match r.out with | .tree t => WF t | _ => true
 
-/-- Every decode tree produced through the modelled API — for every program without a negative-length RangeFn,
-    every input, Force on or off, FillGaps on or off, any Options.Range, INCLUDING the partial trees of failing
-    programs — is WF; and during such a run the cursor never stands beyond the end of a section. -/
-theorem run_wf (cfg : Cfg) (input : Bits) (hnn : noNegRangeL cfg.body = true) :
+/-- Every decode tree produced through the modelled API — for every program, every input, Force on or off,
+    FillGaps on or off, any Options.Range, INCLUDING the partial trees of failing programs — is WF; and during a
+    run the cursor never stands beyond the end of a section. -/
+theorem run_wf (cfg : Cfg) (input : Bits) :
     outWF (run cfg input) = true ∧ (run cfg input).over = false := by
-  refine ⟨?_, Proofs.Tree.run_over_false cfg input hnn⟩
+  refine ⟨?_, Proofs.Tree.run_over_false cfg input⟩
   unfold outWF
   split
   · rename_i t ht
-    exact Proofs.Tree.run_wf_tree cfg input t hnn ht
+    exact Proofs.Tree.run_wf_tree cfg input t ht
   · rfl
 
-/-- the hypothesis of `run_wf` is satisfied by non-trivial programs: struct, seek with restore, framed, RangeFn,
+/-- non-vacuity: `run` returns trees for non-trivial programs: struct, seek with restore, framed, RangeFn,
     nested format with gap filling; by a failing one (partial tree); by one that fails inside a nested root buffer -/
 def exProg : Cfg := ⟨false, true, 0, 0, false,
   [.u (.f 1) 3, .comp false (.f 2) [.u (.f 1) 5, .seek true 2 true [.raw (.f 9) 2]], .sub .framed 8 [.u (.f 3) 4],
@@ -48,10 +46,10 @@ def exProg : Cfg := ⟨false, true, 0, 0, false,
 def exFailing : Cfg := ⟨false, true, 0, 0, false,
   [.u (.f 1) 3, .comp false (.f 2) [.u (.f 1) 5, .comp true (.f 3) [.raw (.f 9) 2, .u (.f 1) 40]]]⟩
 
-example : noNegRangeL exProg.body = true ∧
+example :
     (match (run exProg (List.replicate 40 true)).out with | .tree t => t.i.err == .none && t.kids.length == 7 | _ => false) = true := by
   decide +kernel
-example : noNegRangeL exFailing.body = true ∧
+example :
     (match (run exFailing (List.replicate 40 true)).out with | .tree t => t.i.err == .io && WF t | _ => false) = true := by
   decide +kernel
 
@@ -70,12 +68,20 @@ theorem rootfn_partial_fixed :
     (match (run wRoot (List.replicate 16 false)).out with | .tree t => t.i.err == .de && WF t && t.kids.length == 2 | _ => false) = true := by
   decide +kernel
 
-/-- the hypothesis of `run_wf` is needed (known finding `rangefn-negative-length`): `u8; RangeFn(100, -90, {FieldStruct{}})`
-    on a 16-bit buffer succeeds with a root range 0:100 — not WF (corpus/C03/prog.witness.ops). -/
-def wNeg : Cfg := ⟨false, false, 0, 0, false, [.u (.f 1) 8, .sub (.range 100) (-90) [.comp false (.f 2) []]]⟩
-theorem run_wf_negrange_witness :
-    noNegRangeL wNeg.body = false ∧ outWF (run wNeg (List.replicate 16 false)) = false ∧
-    (run wNeg (List.replicate 16 false)).over = true := by
+/-- regression (former known finding `rangefn-negative-length`, fixed by 2947129a): `u8; RangeFn(100, -90, {FieldStruct{}})`
+    on a 16-bit buffer now fails with a DecoderError (Fatalf, also under Force) and the partial tree is WF. -/
+def wNeg (force : Bool) : Cfg := ⟨force, false, 0, 0, false, [.u (.f 1) 8, .sub (.range 100) (-90) [.comp false (.f 2) []]]⟩
+theorem rangefn_negative_fixed :
+    ∀ force, (match (run (wNeg force) (List.replicate 16 false)).out with
+      | .tree t => t.i.err == .de && WF t && t.kids.length == 1 | _ => false) = true := by
+  decide +kernel
+
+/-- the OLD RangeFn rule (`doSubOld`, the code before 2947129a) on the same call: `fn` starts at bit 100 of a section of
+    10 bits, inside a 16-bit buffer, and the empty struct is recorded at 100:0 — outside the buffer. -/
+theorem rangefn_negative_old_rule_witness :
+    let r := doSubOld (.range 100) (-90) (execList [.comp false (.f 2) []]) ⟨List.replicate 16 false, false, false⟩ { pos := 8 }
+    r.ok = true ∧ r.over = true ∧ r.kids.map (fun k => (k.start, k.len)) = [(100, 0)] ∧
+    (doSub (.range 100) (-90) (execList [.comp false (.f 2) []]) ⟨List.replicate 16 false, false, false⟩ { pos := 8 }).err = .de := by
   decide +kernel
 
 /-- In the tree a run returns — ANY run, also over-seeking or failing ones — the range of every unsigned field,
